@@ -283,8 +283,7 @@ MutableSubtree ts_subtree_clone(Subtree self) {
 // perform a copy.
 MutableSubtree ts_subtree_make_mut(SubtreePool *pool, Subtree self) {
   if (self.data.is_inline) return (MutableSubtree) {self.data};
-  TS_VERIF_YIELD(5, &self.ptr->ref_count);
-  if (self.ptr->ref_count == 1) return ts_subtree_to_mut_unsafe(self);
+  if (TS_OWNERSHIP_READ(&self.ptr->ref_count) == 1) return ts_subtree_to_mut_unsafe(self);
   MutableSubtree result = ts_subtree_clone(self);
   ts_subtree_release(pool, self);
   return result;
@@ -301,8 +300,7 @@ void ts_subtree_compress(
   MutableSubtree tree = self;
   TSSymbol symbol = tree.ptr->symbol;
   for (unsigned i = 0; i < count; i++) {
-    TS_VERIF_YIELD(5, &tree.ptr->ref_count);
-    if (tree.ptr->ref_count > 1 || tree.ptr->child_count < 2) break;
+    if (TS_OWNERSHIP_READ(&tree.ptr->ref_count) > 1 || tree.ptr->child_count < 2) break;
 
     MutableSubtree child = ts_subtree_to_mut_unsafe(ts_subtree_children(tree)[0]);
     if (
